@@ -70,7 +70,7 @@ class NullStorageBackend(StorageBackend):
         return []
 
     def list_mementos(self, fn: FunctionReference, limit: int = None) -> List[Memento]:
-        pass
+        return []
 
     def memoize(self, key_override: str, memento: Memento, result: object) -> None:
         memento.content_key = None
